@@ -182,6 +182,7 @@ libNew(FileName fname, Bool rdOnly, FILE *f, Offset pos)
 	lib->name	= fnameCopy(fname);
 	lib->arent	= NULL;
 	lib->rdOnly	= rdOnly;
+	lib->isOutput	= false;
 	lib->intLoaded	= false;
 	lib->idName	= NULL;
 	lib->file	= f;
@@ -235,7 +236,9 @@ libRead(FileName fname)
 Lib
 libWrite(FileName fname)
 {
-	return libNew(fname, false, fileWubOpen(fname), (Offset) 0);
+	Lib lib = libNew(fname, false, fileWubOpen(fname), (Offset) 0);
+	lib->isOutput = true;
+	return lib;
 }
 
 /*
@@ -338,7 +341,13 @@ libClose(Lib lib)
 	else
 		libPutHeader(lib);
 
-	if (!(lib->rdOnly & 2)) fclose(lib->file);	
+	if (!(lib->rdOnly & 2)) {
+		Bool bad = lib->isOutput && ferror(lib->file) != 0;
+
+		if (fclose(lib->file) != 0 && lib->isOutput) bad = true;
+		if (bad)
+			comsgFatal(NULL, ALDOR_F_CantWrite, libToStringStatic(lib));
+	}
 	libUnRegister(lib);
 	fnameFree(lib->name);
 
